@@ -167,7 +167,9 @@ class Run:
 
     def classify(self, j):
         f = getattr(self.mod, "classify", None)
-        return f(j["case"], j["obs"], j["model"], j["verdict"], j["corr"]) if f else None
+        if not f: return None
+        try: return f(j["case"], j["obs"], j["model"], j["verdict"], j["corr"], j["detail"])
+        except TypeError: return f(j["case"], j["obs"], j["model"], j["verdict"], j["corr"])
 
     def failing(self, j):
         """'check' = property check fails on the implementation's observation; 'corr' = model and code differ"""
